@@ -18,7 +18,17 @@ RULE = ('from_sparse: exhaustive small scope (<= 2 spikes, <= 3 local columns, c
         'directories with and without pc_feature_ind / *_spike_ids tables, spike subsets in shuffled order, '
         'channel permutations, index dtypes; _project_pcs on random integer operands; _compute_pcs / '
         'compute_features / the waveform route of get_features on Walsh-pattern waveforms (exactly diagonal '
-        'covariance). Non-trivial = at least one stored value lands in the output; distinct = distinct abstract input.')
+        'covariance). Stage 3: histories on ONE model object holding a pc-feature store and/or a template-feature store '
+        '(spike-id tables drawn independently, so they differ), 2-6 calls of the two accessors in any order with '
+        'different requests (stores absent: the accessor returns None); large subset stores given by rule (70 000 - '
+        '200 000 spikes, every 2nd / 3rd stored, increasing or decreasing spike-id tables; requests = the first / '
+        'last stored spikes and rows 32767 / 32768, or every stored spike, observed at probed positions) judged through '
+        'the proved closed form; _index_of directly (small random lookups with -1 entries, unknown and out-of-range '
+        'values; lookups of 33 000 - 70 000 entries, values up to 2^22 + 1); _compute_pcs / compute_features / the '
+        'waveform route with k = 1, 2, 3, 5, 6, 7 spikes (Helmert contrasts: exactly diagonal covariance, integer means; '
+        'min(3, k-1) components claimed) and with exactly two spikes carrying arbitrary integer waveforms (component 0 / '
+        'feature 0 against the normalised difference vector, relative tolerance 2^-18). '
+        'Non-trivial = at least one stored value lands in the output; distinct = distinct abstract input.')
 EXHAUSTIVE = {'quick': True, 'thorough': True}
 CLAUSES = {
     30: 'C06_index_of (members of the lookup list are replaced by their positions)',
@@ -29,8 +39,10 @@ CLAUSES = {
     24: 'C06_get_features (requested order, row table, template column table)',
     25: 'C06_template_features (requested order, row table, template column table)',
     26: 'C06_project (features[l][k][i] = sum_j pcs[i][j][k] x[l][j][k])',
-    27: '_compute_pcs returns (+-) the three leading eigenvectors (exactly diagonal covariance; numerical validation)',
-    28: 'waveform-route features are the projections onto the three leading components (up to sign)',
+    27: '_compute_pcs returns (+-) the min(3, k-1) determined leading eigenvectors for k spikes (exactly diagonal covariance: exact; '
+        'two arbitrary integer waveforms: component 0 = +- d/|d| within 2^-18; numerical validation)',
+    28: 'waveform-route features are the projections onto the min(3, k-1) determined leading components (up to sign; two spikes: '
+        'feature 0 = +- <w, d>/|d| within 2^-18)',
     29: 'C06_pca_assemble (rows at the requested positions, zero rows for spikes without stored waveform)',
 }
 TRUSTED = ['np.linalg.eigh / np.cov (LAPACK): validated numerically only, on inputs whose covariance is exactly diagonal',
@@ -40,7 +52,14 @@ ASSUMES = ['requested channels distinct and >= 0; requested spike ids distinct a
            'within one row of the column table a channel occurs at most once (otherwise any candidate is accepted)',
            'well-formed dataset: no array axis of length 1 (the loader squeezes every file), ids fit int32',
            'PCA route: integer waveforms whose per-channel covariance over the requested stored spikes is exactly '
-           'diagonal with three separated leading variances; comparison up to the sign of each component']
+           'diagonal with min(3, k-1) positive, separated leading variances (k = number of requested stored spikes; nothing '
+           'is claimed for the remaining components, nothing at all for k <= 1 beyond shape and placement); or exactly two '
+           'requested stored spikes with arbitrary integer waveforms (component 0 only, tolerance 2^-18 relative to '
+           'sum_j |w_j||d_j| / |d| + 1: the components are stored as float32); comparison up to the sign of each component',
+           'large stores: the model is evaluated through its closed form (theorem C06_get_dense_closed, premise checked by wf_b: '
+           'C06_wf_checker_sound) and _index_of through C06_index_of, because the lookup-table model is quadratic on Coq lists; '
+           'the rows of a large request are observed at probed positions only',
+           'the lookup table of _index_of has at most ~2^22 cells in the generated cases (values near 2^31 are out of reach)']
 TIMEOUT = {'quick': 20, 'thorough': 40}
 
 ALPH = [0, 1, 2, 5]
@@ -379,7 +398,7 @@ def _pca_k(rng, k=None, general=False):
         if nc < 2:
             return _pca_k(rng, general=True)
     extra = rng.randint(0, 3)                                  # stored but not requested
-    nspk = k + extra + rng.randint(0, 3)
+    nspk = max(2, k + extra + rng.randint(0, 3))          # a dataset with a single spike is not well-formed (squeezed axes)
     stored = rng.sample(range(nspk), k + extra)
     if rng.random() < 0.6:
         stored.sort()
